@@ -200,9 +200,11 @@ TypeOK ==
     /\ \A s \in Sessions : live.marker[s] \in CMIDs \cup {0, PreludeCmid} \cup (OtherBase..(OtherBase + MaxOther))
 
 (* ------------------------------- export --------------------------------- *)
-(* Complete behaviours (length bound reached) are printed for the replay.   *)
+(* Complete behaviours (length bound reached) that contain a retry are       *)
+(* printed for the replay.                                                  *)
 ExportBehaviours ==
-    Len(hist) = MaxSteps + 1 => PrintT(<<"BEHAVIOUR", ToJson(hist)>>)
+    (Len(hist) = MaxSteps + 1 /\ \E i \in 2..Len(hist) : hist[i].a = "Retry")
+        => PrintT(<<"BEHAVIOUR", ToJson(hist)>>)
 
 (* Features the replay set must cover; used as "trap" invariants to obtain  *)
 (* a shortest witness from TLC when the enumeration bound is too small.     *)
